@@ -76,6 +76,8 @@ def stall_points():
         pts.append(("resp", c))
     for c in range(0, len(RESP_CL), 3):
         pts.append(("resp-cl", c))
+    pts.append(("resp-burst", 16384))
+    pts.append(("resp-burst", 70000))
     pts.append(("resp-2step", (20, 50)))
     pts.append(("resp-2step", (60, 75)))
     return pts
@@ -90,7 +92,7 @@ def applicable(point, kind):
     if kind == "sock_connect":
         return p in ("tcp-connect",)
     if kind == "sock_read":
-        return p in ("resp", "resp-cl", "resp-2step")
+        return p in ("resp", "resp-cl", "resp-2step", "resp-burst")
     return False
 
 
@@ -158,6 +160,10 @@ class W18:
                 self.send(peer, RESP[: pt[1]], True)
             elif pt[0] == "resp-cl":
                 self.send(peer, RESP_CL[: pt[1]], True)
+            elif pt[0] == "resp-burst":
+                # a burst larger than the client's high-water mark (it pauses reading), then a stall mid-body
+                n = pt[1]
+                self.send(peer, b"HTTP/1.1 200 OK\r\nX-Rid: T\r\nContent-Length: %d\r\n\r\n" % (n + 1000) + b"z" * n, True)
             elif pt[0] == "resp-2step":
                 c1, c2 = pt[1]
                 self.send(peer, RESP[:c1], True)
@@ -256,10 +262,16 @@ def run_case(case, rec):
         res["t_start"] = loop.time()
         try:
             data = b"B" * 2_000_000 if pt[0] == "send-body" else None
-            async with session.request("POST" if data else "GET", "http://t.test/target", data=data, timeout=tmo) as r:
+            if case.get("no_ctx"):
+                r = await session.request("GET", "http://t.test/target", timeout=tmo)
+                state["resp"] = r  # the caller keeps a reference, as an application would
                 res["status"] = r.status
-                body = await r.read()
-                res["body"] = body
+                res["body"] = await r.read()
+            else:
+                async with session.request("POST" if data else "GET", "http://t.test/target", data=data, timeout=tmo) as r:
+                    res["status"] = r.status
+                    body = await r.read()
+                    res["body"] = body
         except asyncio.CancelledError:
             res["exc"] = "CancelledError"
             res["t_end"] = loop.time()
@@ -268,6 +280,10 @@ def run_case(case, rec):
             res["exc"] = type(e).__name__
             res["is_timeout"] = isinstance(e, asyncio.TimeoutError)
             res["t_end"] = loop.time()
+            if case.get("retry"):
+                # the caller's retry loop: the next attempt starts in the very loop iteration in which this one
+                # failed, so it can still join whatever the failed attempt left in flight (DNS lookup)
+                await sibling2(session)
         else:
             res["t_end"] = loop.time()
 
@@ -280,11 +296,23 @@ def run_case(case, rec):
                 sib["body"] = await r.read()
         except BaseException as e:  # noqa
             sib["exc"] = type(e).__name__
-            if isinstance(e, asyncio.CancelledError):
+            if isinstance(e, asyncio.CancelledError) and not case.get("retry"):
                 raise
 
     follow = {}
     state = {}
+    retry = {}
+
+    async def sibling2(session):
+        try:
+            async with session.get("http://t.test/retry", timeout=aiohttp.ClientTimeout(total=100)) as r:
+                retry["status"] = r.status
+                retry["body"] = await r.read()
+        except BaseException as e:  # noqa
+            retry["exc"] = type(e).__name__
+            retry["cancelling"] = getattr(asyncio.current_task(), "cancelling", lambda: 0)()
+            if isinstance(e, asyncio.CancelledError):
+                raise
 
     async def main():
         if use_tcp:
@@ -292,7 +320,7 @@ def run_case(case, rec):
         else:
             conn = MemConnector(factory, loop=loop, pipe_hook=hook, connect_gate=gate, limit=case.get("limit", 100))
         state["conn"] = conn
-        session = aiohttp.ClientSession(connector=conn)
+        session = aiohttp.ClientSession(connector=conn, read_bufsize=4096 if pt[0] == "resp-burst" else 2**16)
         state["session"] = session
         sib_task = None
         if case.get("sibling"):
@@ -302,12 +330,26 @@ def run_case(case, rec):
                 await asyncio.sleep(0.01)
             elif pt[0] in ("dns",):
                 sib_task = None  # started right after the target so that it joins the same lookup
+        def release_env():
+            case["_dns_released"] = True
+            case["_tcp_released"] = True
+            for f in dns_futs + gate_futs:
+                if not f.done():
+                    f.set_result(None)
+
+        if case.get("retry"):
+            # the environment recovers some time after the first attempt has given up
+            loop.call_later(case["T"] + 1.5, release_env)
         t = asyncio.ensure_future(target(session))
         state["target_task"] = t
         if case.get("sibling") and pt[0] == "dns":
             await asyncio.sleep(0)
             sib_task = asyncio.ensure_future(sibling(session, "/other"))
-        if "cancel_at" in case:
+        if "cancel_after" in case:
+            await asyncio.sleep(case["cancel_after"])
+            res["cancel_hit_live_task"] = not t.done()
+            t.cancel()
+        elif "cancel_at" in case or "cancel_after" in case:
             for _ in range(case["cancel_at"]):
                 await asyncio.sleep(0)
                 if t.done():
@@ -318,12 +360,18 @@ def run_case(case, rec):
             await t
         except BaseException:  # noqa
             pass
+        retry_task = None
         # let the environment recover: release whatever the environment was holding back
         case["_dns_released"] = True
         case["_tcp_released"] = True
         for f in dns_futs + gate_futs:
             if not f.done():
                 f.set_result(None)
+        if retry_task is not None:
+            try:
+                await asyncio.wait_for(asyncio.shield(retry_task), 200)
+            except BaseException as e:  # noqa
+                retry.setdefault("exc", "harness-wait:" + type(e).__name__)
         if sib_task is not None:
             try:
                 await asyncio.wait_for(sib_task, 200)
@@ -363,7 +411,7 @@ def run_case(case, rec):
         w.W.close()
         return v, res, state
     # ---- bound
-    if "cancel_at" not in case and kind != "none":
+    if "cancel_at" not in case and "cancel_after" not in case and kind != "none":
         if "exc" not in res:
             v.append((f"timeout:not-raised:{kind}@{pt[0]}", f"{ctx}: request completed {res.get('status')} although the peer stalls"))
         elif not res.get("is_timeout"):
@@ -380,7 +428,7 @@ def run_case(case, rec):
                 v.append((f"timeout:too-early:{kind}@{pt[0]}", f"{ctx}: fired after {dt:.3f}s < {T}"))
             elif dt > hi:
                 v.append((f"timeout:too-late:{kind}@{pt[0]}", f"{ctx}: fired after {dt:.3f}s > {T}+1"))
-    elif "cancel_at" in case:
+    elif "cancel_at" in case or "cancel_after" in case:
         if res.get("cancel_hit_live_task") and res.get("exc") not in ("CancelledError", None) and "status" not in res:
             v.append((f"cancel:swallowed:{res.get('exc')}", f"{ctx}: the cancelled call ended with {res.get('exc')}"))
     # ---- residue
@@ -402,6 +450,8 @@ def run_case(case, rec):
     if case.get("sibling"):
         if sib.get("exc") or sib.get("body") != RESP_BODY:
             v.append((f"sibling:harmed:{sib.get('exc')}", f"{ctx}: sibling result {sib}"))
+    if case.get("retry") and (retry.get("exc") or retry.get("body") != RESP_BODY):
+        v.append((f"sibling:immediate-retry-harmed:{retry.get('exc')}", f"{ctx}: a request issued right after the failure, sharing what was still in flight, ended with {retry}"))
     if follow.get("exc") or follow.get("body") != RESP_BODY:
         v.append((f"session:unusable-afterwards:{follow.get('exc')}", f"{ctx}: follow-up {follow}"))
     for c in captured:
@@ -449,6 +499,10 @@ def run_shard(spec, rec):
             case = {"point": p, "tk": tk, "T": T, "tcp": True, "sibling": sibl, "dns_cache": cache}
             v, res, state = run_case(case, rec)
             report(rec, case, v, res, state)
+            if p[0] in ("dns", "tcp-connect"):
+                case = {"point": p, "tk": tk, "T": T, "tcp": True, "sibling": False, "dns_cache": cache, "retry": True}
+                v, res, state = run_case(case, rec)
+                report(rec, case, v, res, state)
         rec.set_exhaustive("stall point x timeout kind x T x sibling x dns cache (TCPConnector with seams)", True)
     elif kind == "cancel":
         # clean run first to learn how many loop iterations it takes, then cancel at every one of them
@@ -466,6 +520,15 @@ def run_shard(spec, rec):
             report(rec, case, v, res, state)
             if "status" in res and k > 5:
                 break
+        # cancellation by time while the peer stalls, with and without `async with` around the response
+        for pt in (("resp", 30), ("resp", 70), ("resp-cl", 60), ("resp-burst", 16384), ("connect", None), ("send-body", None)):
+            for no_ctx in (False, True):
+                if no_ctx and pt[0] in ("connect", "send-body"):
+                    continue
+                for after in (0.5, 3.0):
+                    case = {"point": pt, "tk": "none", "T": 0, "tcp": False, "cancel_after": after, "no_ctx": no_ctx, "limit": 1}
+                    v, res, state = run_case(case, rec)
+                    report(rec, case, v, res, state)
         rec.set_exhaustive("cancel at every loop iteration of a clean exchange", True)
         rec.sample({"plan": {k2: v2 for k2, v2 in plan.items()}, "cancel_iterations_tried": k + 1})
     elif kind == "random":
